@@ -108,12 +108,12 @@ def rule_apply_window(chk: Check, model: Model, rid: str):
     chk.used(fi.qualname)
     ev = SymEval(model)
     r = ev.run_function(fi)
-    for n in ("_scan_body", "_apply_window"):
+    for n in (model.local_name("utils.apply_window._scan_body"), model.local_name("utils.apply_window._apply_window")):
         if r.env.get(n, T.NONE)[0] != "closure":
             raise AnalysisError(f"closure {n} not found in apply_window")
     f_sb = model.func("utils.apply_window._scan_body")
     f_aw = model.func("utils.apply_window._apply_window")
-    out = ev.invoke(r.env["_scan_body"], [S("vertex"), S("window"), S("edge")], r.frame)
+    out = ev.invoke(r.env[model.local_name("utils.apply_window._scan_body")], [S("vertex"), S("window"), S("edge")], r.frame)
     ok = out[0] == "tuple" and len(out[1]) == 2
     if ok:
         neww, iw = out[1]
@@ -135,7 +135,7 @@ def rule_apply_window(chk: Check, model: Model, rid: str):
     chk.add(rid, "IndexedWindow.to_window", ok, f"to_window returns {T.show(tw)[:160]}", chk.loc(f_tw))
     # _apply_window
     n0 = len(ev.events)
-    ev.invoke(r.env["_apply_window"], [S("graph")], r.frame)
+    ev.invoke(r.env[model.local_name("utils.apply_window._apply_window")], [S("graph")], r.frame)
     sub = ev.events[n0:]
     wins = [e for e in sub if e.kind == "call" and e.name == "new:Window" and e.func == f_aw.qualname]
     if len(wins) == 1:
@@ -249,13 +249,13 @@ def rule_networkx(chk: Check, model: Model, rid: str):
     ok = len(st) == 1 and seq is not None and st[0].guard == T.mk_and([n.guard, T.lt(T.ZERO, seq)])
     chk.add(rid, "stateful edge for every seq > 0", ok, f"the edge kind_(seq-1) -> kind_seq is added under {T.show(st[0].guard)[:140] if st else None}, expected seq > 0 (and seq != -1)", chk.loc(fi, st[0].node if st else None))
     if st:
-        src = ast.unparse(st[0].node)
-        fdef = [x for x in ast.walk(fi.node) if isinstance(x, ast.Assign) and isinstance(x.value, ast.JoinedStr)]
-        names = {ast.unparse(a.targets[0]): ast.unparse(a.value) for a in fdef}
-        u, v = (ast.unparse(a) for a in st[0].node.args[:2])
-        nq = lambda x: (x or "").replace(" ", "").replace("'", '"')
-        ok = nq(names.get(u)) == 'f"{n}_{seq-1}"' and nq(names.get(v)) == 'f"{n}_{seq}"' 
-        chk.add(rid, "stateful edge direction", ok, f"stateful edge is {names.get(u)} -> {names.get(v)}, expected f'{{n}}_{{seq-1}}' -> f'{{n}}_{{seq}}'", chk.loc(fi, st[0].node))
+        # vertex names are the structured f-string terms fstr(<kind>, "_", <seq>): compared as terms, not as source text
+        kind_t = T.mk_index(("elem", T.mk_call("graph.vertices.items", []), 0), T.ZERO)
+        kinds = [x for x in T.walk(st[0].args[0]) if x[0] == "index" and x[1][0] == "elem" and T.const_value(x[2]) == 0 and x[1][1][0] == "call" and str(T.call_name(x[1][1])).endswith("vertices.items")] if st[0].args else []
+        kind_t = kinds[0] if kinds else kind_t
+        ok = len(st[0].args) >= 2 and st[0].args[0] == T.mk_call("fstr", [kind_t, T.const("_"), T.sub(seq, T.ONE)]) and st[0].args[1] == T.mk_call("fstr", [kind_t, T.const("_"), seq])
+        chk.add(rid, "stateful edge direction", bool(ok), f"stateful edge is {T.show(st[0].args[0])[:80] if st[0].args else None} -> {T.show(st[0].args[1])[:80] if len(st[0].args) > 1 else None}, "
+                "expected <kind>_(seq-1) -> <kind>_seq", chk.loc(fi, st[0].node))
     if ms:
         m = ms[0]
         el = [x for x in T.walk(m.guard) if x[0] == "elem" and x[1][0] == "call" and x[1][1] == "zip"]
@@ -266,11 +266,15 @@ def rule_networkx(chk: Check, model: Model, rid: str):
             ok = m.guard == T.mk_and([T.mk_not(T.eq(so, T.const(-1), numeric=True)), T.mk_not(T.eq(si, T.const(-1), numeric=True))])
             ok = ok and [a[2] if a[0] == "attr" else None for a in z[1][2]] == ["seq_out", "seq_in", "ts_recv"]
         chk.add(rid, "message edges skip unsent / unreceived messages", bool(ok), f"message edges are added under {T.show(m.guard)[:160]}, expected seq_out != -1 and seq_in != -1", chk.loc(fi, m.node))
-        names = {ast.unparse(a.targets[0]): ast.unparse(a.value).replace(" ", "").replace("'", '"') for a in ast.walk(fi.node) if isinstance(a, ast.Assign) and isinstance(a.value, ast.JoinedStr)}
-        u, v = (ast.unparse(a) for a in m.node.args[:2])
-        ok = names.get(u) == 'f"{n1}_{seq_out}"' and names.get(v) == 'f"{n2}_{seq_in}"' 
-        chk.add(rid, "message edge direction", ok, f"message edge is {names.get(u)} -> {names.get(v)}, expected sender_seq_out -> receiver_seq_in", chk.loc(fi, m.node))
-
+        ok = bool(el) and len(m.args) >= 2
+        if ok:
+            keys = [x for x in T.walk(m.args[0]) if x[0] == "index" and x[1][0] == "elem" and T.const_value(x[2]) == 0 and x[1][1][0] == "call" and str(T.call_name(x[1][1])).endswith("edges.items")]
+            ok = bool(keys)
+            if ok:
+                pair = keys[0]  # (sender, receiver) key of graph.edges
+                ok = m.args[0] == T.mk_call("fstr", [T.mk_index(pair, T.ZERO), T.const("_"), so]) and m.args[1] == T.mk_call("fstr", [T.mk_index(pair, T.ONE), T.const("_"), si])
+        chk.add(rid, "message edge direction", bool(ok), f"message edge is {T.show(m.args[0])[:80] if m.args else None} -> {T.show(m.args[1])[:80] if len(m.args) > 1 else None}, "
+                "expected <sender>_<seq_out> -> <receiver>_<seq_in>", chk.loc(fi, m.node))
 
 def rule_connected(chk: Check, model: Model, rid: str):
     fi = model.func("utils.to_connected_graph")
